@@ -1288,24 +1288,40 @@ pub fn run_check(tier_name: &str, seed: u64, verif_dir: &str) -> i32 {
     let n_viol = all.len();
     let mut replay_path = String::new();
     let pick = std::env::var("VERIF_PICK").unwrap_or_default();
-    if let Some((_, sc, v)) = all.iter().filter(|(_, _, v)| pick.is_empty() || v.detail.contains(&pick) || v.class.contains(&pick)).min_by_key(|(i, _, v)| (*i, v.step)).cloned() {
+    // Candidates in scenario order.  A violation is reported once its explicit scenario fails
+    // again by itself, minimises and replays; a candidate that does not fail again (code under
+    // test that behaves differently from run to run in a way no seam owns, e.g. threads it
+    // lets run freely) is skipped in favour of the next one — only when none of them
+    // reproduces is the run a harness error.
+    let mut cands: Vec<(u64, C13Scenario, Viol)> = all.iter().filter(|(_, _, v)| pick.is_empty() || v.detail.contains(&pick) || v.class.contains(&pick)).cloned().collect();
+    cands.sort_by_key(|(i, _, v)| (*i, v.step));
+    let mut not_reproduced: Vec<String> = vec![];
+    for (_, sc, v) in cands.iter().take(8) {
         if v.class == "harness" {
             println!("HARNESS-ERROR {}", v.detail);
             let _ = std::fs::remove_dir_all(&scratch);
             return 2;
         }
         // first make sure the explicit scenario fails by itself (it was generated while running)
-        let again = run_history(&sc, &scratch);
+        let again = run_history(sc, &scratch);
         if !again.violations.iter().any(|x| x.class == v.class) {
-            println!("HARNESS-ERROR nondeterministic-replay: scenario {} did not fail again with class {}", sc.index, v.class);
-            let _ = std::fs::remove_dir_all(&scratch);
-            return 2;
+            not_reproduced.push(format!("scenario {} did not fail again with class {}", sc.index, v.class));
+            continue;
         }
         let mut budget = 250usize;
-        let mut min = minimise(&sc, &v.class, &scratch, &mut budget);
+        let mut min = minimise(sc, &v.class, &scratch, &mut budget);
         min.expect = Some(Expect { class: v.class.clone(), detail: String::new() });
-        match replay(&min, &scratch) {
-            Some(d) => {
+        let replayed = match replay(&min, &scratch) {
+            Some(d) => Some((min, d)),
+            None => {
+                // the minimised form is flaky: fall back to the scenario as found
+                let mut full = sc.clone();
+                full.expect = Some(Expect { class: v.class.clone(), detail: String::new() });
+                replay(&full, &scratch).map(|d| (full, d))
+            }
+        };
+        match replayed {
+            Some((mut min, d)) => {
                 min.expect = Some(Expect { class: v.class.clone(), detail: d.clone() });
                 let dir = format!("{verif_dir}/replays");
                 let _ = std::fs::create_dir_all(&dir);
@@ -1315,13 +1331,20 @@ pub fn run_check(tier_name: &str, seed: u64, verif_dir: &str) -> i32 {
                 println!("violation {d}");
                 println!("VIOLATION property=C13 replay={replay_path}");
                 exit = 1;
+                break;
             }
             None => {
-                println!("HARNESS-ERROR nondeterministic-replay: minimised scenario of class {} did not reproduce", v.class);
-                let _ = std::fs::remove_dir_all(&scratch);
-                return 2;
+                not_reproduced.push(format!("scenario {} (class {}) did not reproduce in a fresh replay", sc.index, v.class));
             }
         }
+    }
+    for n in &not_reproduced {
+        println!("note: nondeterministic-replay: {n}");
+    }
+    if exit != 1 && !cands.is_empty() {
+        println!("HARNESS-ERROR nondeterministic-replay: {} violating scenario(s), none failed again when re-executed", cands.len());
+        let _ = std::fs::remove_dir_all(&scratch);
+        return 2;
     }
 
     let wall = t0.elapsed().as_secs_f64();
